@@ -97,3 +97,39 @@ def value_for(r, tok_or_cls, hostile=True):
     if name == 'Indent':
         return r.choice(['  ', '\t', '        ', ' ', ' \t'])
     return None
+
+
+def respell(r, tok):
+    """Another raw text for the token's *current* value (same meaning, different characters), or None."""
+    name = type(tok).__name__
+    raw = tok.raw_text
+    try:
+        if name == 'BlockComment':
+            ind = tok.indent
+            lines = tok.value.split('\n')
+            style = r.choice(['tight', 'wide'])
+            if style == 'tight' and all(not ln or not ln.startswith(' ') for ln in lines):
+                return '\n'.join(f'{ind};{ln}' for ln in lines)          # ';foo' instead of '; foo'
+            return '\n'.join(f'{ind}; {ln}' if ln.rstrip('\r') else f'{ind};{ln}' for ln in lines)
+        if name == 'InlineComment':
+            v = tok.value
+            return r.choice([';' + v if not v.startswith(' ') else None, ';   ' + v, '; ' + v])
+        if name == 'Date':
+            d = tok.value
+            return r.choice([f'{d.year:04d}/{d.month:02d}/{d.day:02d}', f'{d.year:04d}-{d.month}-{d.day}', f'{d.year:04d}-{d.month:02d}/{d.day:02d}'])
+        if name == 'Number':
+            v = tok.value
+            s = str(v)
+            if 'E' in s:
+                return None
+            ip, _, fp = s.partition('.')
+            grouped = f'{int(ip):,}' + ('.' + fp if fp else '')
+            return r.choice([grouped, s + ('.' if '.' not in s else '0'), s])
+        if name == 'EscapedString':
+            v = tok.value
+            return '"' + models.EscapedString.escape(v, aggressive=True) + '"'
+        if name == 'TransactionFlag' and tok.value == '*':
+            return r.choice(['txn', '*'])
+    except Exception:
+        return None
+    return None
